@@ -87,6 +87,20 @@ CHECKS = {
              "hash where the manual defines the value; otherwise totality, memory safety and the stated relations.",
         note="trusted: Python bytes/base64 as reference; C locale; trim family only required to strip spaces and nothing but whitespace; hash of bytes >= 0x80 only required to be deterministic",
         design="DESIGN.md section 4, C10"),
+    "C09": dict(
+        engine="E2 hist",
+        technique="explicit-state breadth-first search over container operation histories on the real interpreter (states = canonical dumps, rebuilt by replay), invariant and reference-model comparison in every state",
+        text="Breadth-first search to depth 2 (quick) / 3 (thorough, bounded frontier reported) over histories of at/put/insert/delete/concat/count/set@/@ on "
+             "seven table kinds (integer, decimal, string, bytes, boolean, tuple, 2-dimensional), a string, a bytes value and a 5-item tuple. Positions "
+             "{null,-1,0,1,n-1,n,n+1,2^32,MAX}, ranks {0,1,2,5,6,2^32+1}, byte codes {null,-1,0,65,255,256,MAX}, element arguments of every type (matching, "
+             "int/decimal mixable, mismatching, typed and untyped nulls, tables of right/wrong element type, tuples of same/different structure), each also "
+             "through an expression of opaque static type so that only the run-time checks apply, plus self-concat/self-insert. In every state: every "
+             "element has exactly the table's element type (recursively), tuple items their declared types, contents equal a Python-list model, a rejected "
+             "operation leaves the dump unchanged, null/out-of-range positions are rejected, in-range results are the documented ones. In addition all "
+             "tuple declarations of <=3 (quick, neighbourhood) / <=4 (thorough, all pairs) items over 6 item types are checked pairwise for type identity, "
+             "and every mutator of a table under forall must be refused at compile time.",
+        note="trusted: the Python list model; containers above 5 elements are not expanded; 48 tuple-declaration hash collisions are recorded findings (KNOWN_FINDINGS.txt)",
+        design="DESIGN.md section 4, C09"),
 }
 
 NOT_YET = {}
@@ -130,6 +144,8 @@ def main():
         "engines": [
             {"name": "E1 space", "path": "vf/core.py", "serves_properties": sorted(k for k, v in CHECKS.items() if v["engine"].startswith("E1")),
              "kind_free_text": "parallel exhaustive enumeration of finite case spaces through harness/vdrv.cpp (fork-isolated, ASan+UBSan, step budget, CPU watchdog)"},
+            {"name": "E2 hist", "path": "vf/core.py (explore + collect), vf/props/c08.py, vf/props/c09.py", "serves_properties": sorted(k for k, v in CHECKS.items() if v["engine"].startswith("E2")),
+             "kind_free_text": "explicit-state search over operation histories: each state is rebuilt by replaying its shortest history on a fresh context, canonical dump -> dedup, invariant + model comparison in every state"},
         ],
         "checks": checks,
         "notes": "All checks rebuild /repo's working tree (build/asan, -DBLOC_VERIF, clang ASan+UBSan) before running. KNOWN_FINDINGS.txt lists recorded findings and repaired defects.",
